@@ -75,6 +75,11 @@ class VLoop(asyncio.BaseEventLoop):
         self.timer_pops = 0
         self._in_running = False
         self.timer_choices_enabled = True  # harness may switch tie exploration off for set-up phases
+        # asyncio moves EVERY timer that is due into the ready queue in one iteration, so callbacks of two timers
+        # that expire together run back to back, BEFORE anything the first one schedules with call_soon (e.g. the
+        # wake-up of a lock waiter).  Default here: one timer per iteration; with batch choices on, each further
+        # candidate (same window as the 'timer' choice) joins the batch - choice kind 'batch' (0 = alone, 1 = all).
+        self.batch_choices_enabled = False
 
     # ---- clock / scheduling ---------------------------------------------------------
     def time(self):
@@ -183,6 +188,24 @@ class VLoop(asyncio.BaseEventLoop):
         ent[2]._scheduled = False
         self._ready.append(ent[2])
         self.timer_pops += 1
+        if self.batch_choices_enabled and self.timer_choices_enabled:
+            lim = when0 + self.window
+            timers = self._live_timers()
+            cands = sorted((e for e in timers if e[0] <= lim and e[0] <= horizon and not e[2]._cancelled),
+                           key=lambda e: (e[0], e[1]))
+            if self.timer_choice is not None:
+                cands = [e for e in cands if self.timer_choice(e[2])]
+            # 0 = this timer alone; 1 = every candidate joins the batch, in deadline order (what asyncio does when the
+            # iteration starts a little late)
+            if cands and self.chooser.choose("batch", 2) == 1:
+                for e in cands:
+                    timers.remove(e)
+                    if e[0] > self._vtime:
+                        self._vtime = e[0]
+                    e[2]._scheduled = False
+                    self._ready.append(e[2])
+                    self.timer_pops += 1
+                heapq.heapify(timers)
         return True
 
     def run_until(self, t=None, pred=None, max_steps=5_000_000):
